@@ -345,7 +345,7 @@ func runRange(c *hx.Ctx, or *hx.Oracle, rc rangeCase, verbose bool) {
 	honest := rc.Tamper == "" && len(rc.Muts) == 0
 	// identical sub-nodes under different parents on the two boundary paths: the hash-keyed proof set holds ONE object
 	// for them, and trie2's range verifier links and cuts proof nodes in place (the registered root cause of
-	// trie2:honest-range-proof-panics); the classes of trie2 carry the suffix so that this family stays apart
+	// trie2:honest-range-proof-panics); trie2's honest-range failures carry the suffix so that this family stays apart
 	shared := ""
 	if !(len(pk) == 1 && pk[0] == "nil") && sharedSubnodes(b, pk) {
 		shared = ":identical-sub-nodes"
@@ -402,11 +402,7 @@ func runRange(c *hx.Ctx, or *hx.Oracle, rc rangeCase, verbose bool) {
 				c.Violation(impl+":honest-range-proof-wrong-more-flag",
 					fmt.Sprintf("root %s range first=%s [%s..] (%s): %s but the opposite holds", fhex(&b.root), rc.First, rc.Shape, rc.Tamper, g), rc, false)
 			} else {
-				cl := impl + ":range-forged:" + rc.Tamper
-				if impl == "trie2" {
-					cl += shared
-				}
-				c.Violation(cl, "altered range accepted: "+g, rc, false)
+				c.Violation(impl+":range-forged:"+rc.Tamper, "altered range accepted: "+g, rc, false)
 			}
 			continue
 		}
@@ -434,39 +430,53 @@ func runRange(c *hx.Ctx, or *hx.Oracle, rc rangeCase, verbose bool) {
 	}
 }
 
-// sharedSubnodes: the membership proofs of the two boundary keys, compared below their common prefix, contain a node
-// with the same hash.
+// sharedSubnodes: below the point where the two boundary keys part, their membership proofs contain a node with the
+// same hash (identical sub-tries under different parents). A proof node that starts at bit offset o is the same trie
+// node on both paths iff the keys agree on all bits before o.
 func sharedSubnodes(b *built, pk []string) bool {
 	if len(pk) != 2 || b.root.IsZero() {
 		return false
 	}
-	path := func(k string) []string {
+	type at struct {
+		hash string
+		off  int
+	}
+	path := func(k string) ([]at, string) {
 		key := hexF(k)
 		p := trie2.NewProofNodeSet()
 		if err := b.t2.Prove(&key, p); err != nil {
-			return nil
+			return nil, ""
 		}
 		s, err := fromTrie2(p)
 		if err != nil {
-			return nil
+			return nil, ""
 		}
-		out := make([]string, len(s))
+		out := make([]at, len(s))
+		off := 0
 		for i, e := range s {
-			out[i] = e.Key
+			out[i] = at{e.Key, off}
+			if e.N.Bin {
+				off++
+			} else {
+				off += len(e.N.Path)
+			}
 		}
-		return out
+		return out, keyBits(&key, 251)
 	}
-	l, r := path(pk[0]), path(pk[1])
-	i := 0
-	for i < len(l) && i < len(r) && l[i] == r[i] {
-		i++
+	l, lb := path(pk[0])
+	r, rb := path(pk[1])
+	cb := 0
+	for cb < len(lb) && cb < len(rb) && lb[cb] == rb[cb] {
+		cb++
 	}
 	seen := map[string]bool{}
-	for _, h := range l[i:] {
-		seen[h] = true
+	for _, n := range l {
+		if n.off > cb {
+			seen[n.hash] = true
+		}
 	}
-	for _, h := range r[i:] {
-		if seen[h] {
+	for _, n := range r {
+		if n.off > cb && seen[n.hash] {
 			return true
 		}
 	}
